@@ -413,6 +413,43 @@ def run(ctx):
                                     f"{cname} content, get_extractor says {want}",
                                     {"name": nme, "content": cname, "payload": payload, "read_file_entered": list(invoked),
                                      "read_file_error": err, "get_extractor": want})
+            # ---- histories: the decision for a path may depend neither on the files read earlier in the process nor
+            # on the MIME database an earlier call saw.  The same names are read under a sequence of host MIME
+            # configurations, and URL-like relative names ("data:text/html,x.zzq") before plain names with the same
+            # suffix; after every call read_file must have entered what get_extractor says NOW.
+            hist_names = ["u.exe", "u.bin", "u.unknown", "u.tpl", "u.htmx", "u.sp", "u.docx2", "v.unknown2", "w.unknownext",
+                          "x.docx", "y.pdf", "z.gz", "t.tar", "s.tgz", "data:text/html,page.zzq", "plain.zzq",
+                          "data:application/pdf,q.docx", "r.docx", "data:text/plain,n.unknown", "o.unknown"]
+            cwd0 = os.getcwd()
+            os.chdir(td)
+            try:
+                for nme in hist_names:
+                    if os.path.dirname(nme):
+                        os.makedirs(os.path.dirname(nme), exist_ok=True)
+                    open(nme, "wb").write(b"hello")
+                for order in (("hostile", "default", "empty", "hostile"), ("empty", "hostile", "default", "empty")):
+                    for step, kind in enumerate(order):
+                        with MimeConfig(kind):
+                            for nme in (hist_names if step % 2 == 0 else hist_names[::-1]):
+                                del invoked[:]
+                                _, _, want, _ = impl_case(router, nme)
+                                err = None
+                                try:
+                                    for _ in sharepoint2text.read_file(nme):
+                                        break
+                                except Exception as e:  # noqa
+                                    err = type(e).__name__
+                                got = invoked[0] if invoked else None
+                                ctx.case(("read_file-history", nme, order, step), True, kind="read_file-history:" + kind)
+                                if got != want or len(invoked) > 1:
+                                    ctx.finding(f"read_file-history:{nme}:{kind}",
+                                                f"read_file entered {invoked or err} for {nme!r} under the {kind} MIME database "
+                                                f"(step {step} of {order}), get_extractor says {want}",
+                                                {"name": nme, "mime_sequence": list(order), "step": step,
+                                                 "read_file_entered": list(invoked), "read_file_error": err,
+                                                 "get_extractor": want})
+            finally:
+                os.chdir(cwd0)
     finally:
         for m_, fn, orig_f in saved:
             setattr(m_, fn, orig_f)
